@@ -77,7 +77,10 @@ def convert_and_compare(ctx, doc, case, spec, intern, path, out, **kw):
     try:
         vcf2zarr.convert([path], out, worker_processes=0, icf_path=out + ".icf", **kw)
     except Exception as e:  # noqa: BLE001
-        ctx.fail(doc, dict(error=f"{type(e).__name__}: {e}"[:300]), "conversion of a well-formed indexed file failed")
+        msg = f"{type(e).__name__}: {e}"[:300]
+        big = over_limit_arrays(out + ".icf", **kw)
+        cls = "chunk_over_blosc_limit" if big and isinstance(e, ValueError) and ("does not support buffers" in msg or "chunks are too large" in msg) else None
+        ctx.fail(doc, {"class": cls, "error": msg, "arrays_over_limit": big}, "conversion of a well-formed indexed file failed")
         return None
     store, root = oracle.read_store(out, intern)
     probs = oracle.compare(case, spec, store) + oracle.header_problems(case, root)
@@ -87,10 +90,61 @@ def convert_and_compare(ctx, doc, case, spec, intern, path, out, **kw):
     return store
 
 
+def over_limit_arrays(icf_path, **kw):
+    """arrays of the schema generated for this store whose UNCLIPPED chunk exceeds the codec's buffer limit"""
+    import numpy as np
+    from bio2zarr.vcf2zarr import icf as icf_mod, vcz
+
+    try:
+        schema = vcz.VcfZarrSchema.generate(icf_mod.IntermediateColumnarFormat(icf_path), **kw)
+    except Exception:  # noqa: BLE001
+        return []
+    out = []
+    for sp in schema.fields:
+        n = np.dtype(sp.dtype).itemsize
+        for k, c in enumerate(sp.chunks):
+            n *= c
+        for w in sp.shape[len(sp.chunks):]:
+            n *= w
+        if n > 2**31 - 1:
+            out.append([sp.name, list(sp.chunks), sp.dtype, n])
+    return out
+
+
+def f18_probe(ctx, d):
+    """the smallest input of class F18: one record, one sample, 14 ALT alleles, PL (Number=G: 120 values, one above 127)"""
+    from bio2zarr import vcf2zarr
+
+    nalt = 14
+    npl = (nalt + 1) * (nalt + 2) // 2
+    hdr = ['##contig=<ID=chr1,length=100000>', '##FILTER=<ID=PASS,Description="p">', '##FORMAT=<ID=GT,Number=1,Type=String,Description="g">',
+           '##FORMAT=<ID=PL,Number=G,Type=Integer,Description="pl">']
+    alts = ",".join("CGT"[k % 3] * (k + 1) for k in range(nalt))
+    rec = f"chr1\t10\t.\tA\t{alts}\t.\tPASS\t.\tGT:PL\t0/1:" + ",".join(str(200 if i == 3 else i % 100) for i in range(npl))
+    p = vcfgen.make_indexed(d, "f18", vcfgen.vcf_text(hdr, [rec], ["s0"]), kind="tbi")
+    out = os.path.join(d, "f18.vcz")
+    for opts in ({}, dict(variants_chunk_size=1000, samples_chunk_size=100)):
+        doc = dict(part="wide-field-default-chunks", alts=nalt, records=1, samples=1, options=opts)
+        ctx.case(doc, nontrivial=True)
+        ctx.count("wide-field probe")
+        shutil.rmtree(out, ignore_errors=True)
+        shutil.rmtree(out + ".icf", ignore_errors=True)
+        try:
+            vcf2zarr.convert([p], out, worker_processes=0, icf_path=out + ".icf", **opts)
+        except Exception as e:  # noqa: BLE001
+            msg = f"{type(e).__name__}: {e}"[:300]
+            big = over_limit_arrays(out + ".icf", **opts)
+            cls = "chunk_over_blosc_limit" if big and isinstance(e, ValueError) and ("does not support buffers" in msg or "chunks are too large" in msg) else None
+            ctx.fail(doc, {"class": cls, "error": msg, "arrays_over_limit": big}, "conversion of a well-formed indexed file failed")
+    shutil.rmtree(out, ignore_errors=True)
+    shutil.rmtree(out + ".icf", ignore_errors=True)
+
+
 def run(ctx):
     r = ctx.rnd
     d = os.path.join(ctx.work, "c01")
     os.makedirs(d)
+    f18_probe(ctx, d)
     for i in range(ctx.n(40, 1500)):
         seed = ctx.seed * 1000003 + i
         case = gen(ctx, seed, force_wide=(i % 16 == 5))
@@ -134,7 +188,11 @@ def run(ctx):
 
 def replay(ctx, rep):
     c = rep["case"]
-    if "gen_seed" in c:
+    if c.get("part") == "wide-field-default-chunks":
+        d = os.path.join(ctx.work, "c01")
+        os.makedirs(d, exist_ok=True)
+        f18_probe(ctx, d)
+    elif "gen_seed" in c:
         seed = c["gen_seed"]
         case = absvcf.gen_case(seed)
         if c.get("file_order") == "reversed-contigs":
